@@ -146,6 +146,32 @@ impl Session {
         out
     }
 
+    /// CREATE TRIGGER through the executor API: `header` is parsed (timing, event, granularity,
+    /// WHEN) with a dummy body, then the body text is put in place (the parser stores trigger
+    /// bodies as debug-printed tokens, so triggers created from SQL text never run).
+    pub fn create_trigger(&mut self, header: &str, body: &str) -> Outcome {
+        let db = &mut self.db;
+        let sql = format!("{} BEGIN SELECT 1; END", header);
+        let out = match guard(|| -> Result<Outcome, String> {
+            let stmt = Parser::parse_sql(&sql).map_err(|e| format!("parse: {}", e))?;
+            match stmt {
+                Statement::CreateTrigger(mut t) => {
+                    t.triggered_action = vibesql_ast::TriggerAction::RawSql(body.to_string());
+                    Self::dispatch_stmt(db, Statement::CreateTrigger(t))
+                }
+                _ => Err("not a CREATE TRIGGER".to_string()),
+            }
+        }) {
+            Ok(Ok(o)) => o,
+            Ok(Err(e)) => Outcome::Err(e),
+            Err(p) => Outcome::Panic(p),
+        };
+        if self.record {
+            self.history.push(Event { sql: format!("{} BEGIN {} END  -- body set through the API", header, body), outcome: out.brief() });
+        }
+        out
+    }
+
     /// Query helper: rows or an error string.
     pub fn query(&mut self, sql: &str) -> Result<Vec<CRow>, String> {
         match self.exec(sql) {
